@@ -30,6 +30,10 @@ def composite_impl(S, cu, cs, ty, x, xv):
     payload = u[2] if u[0] == "ok" else u[1]
     r = S.impl_st(cs, ty, None, payload=payload)
     if r[0] == "ok":
+        bad = S.R.factories_ok(ty, r[2])
+        if bad is not None:
+            # "of x's class": a defaultdict[K, V] comes back as a defaultdict whose default_factory is V
+            return ("bad-default-factory", "%r has default_factory %r" % (bad[1], bad[1].default_factory))
         return ("ok", terms.canon_sx(r[1]))
     if r[0] == "unrep":
         return ("unrep", r[1])
@@ -85,7 +89,8 @@ def run(chk: framework.Check):
     drv = lean.Driver()
     n_worlds = 600 if chk.tier == "quick" else 6000
     corr_fail = []
-    for G, S, w in streams.worlds(chk, drv, n_worlds, no_any=True, unions=True, nt=True, enum_lits=True):
+    for G, S, w in streams.worlds(chk, drv, n_worlds, no_any=True, unions=True, nt=True, enum_lits=True,
+                                   map_targets=True):
         for ty, x, xv in streams.typed_values(chk, G, S, w, n_types=5, n_values=2):
             unions = gen.reach_unions(w, ty)
             # a union the generator did not build to be distinguishable may be refused (hook creation or structuring
@@ -118,6 +123,9 @@ def run(chk: framework.Check):
                              + drv.ask("USCOPE %d %s" % (1 if cu["tuple"] else 0, terms.ty_sx(ty))))
                 if nts:
                     chk.note("nt-reachable:unstructured-by-" + ("Converter" if cu["gen"] else "BaseConverter"))
+                if any(not isinstance(t_, str) and t_[0] in ("odict", "ddict", "counter")
+                       for rt in gen.reach_types(w, ty) for t_ in gen.walk_types(rt)):
+                    chk.note("mapping-target-class-reachable:" + ri[0])
                 for t in gen.walk_types(ty):
                     chk.note("ctor:" + (t if isinstance(t, str) else t[0]))
                 # ---- oracle
